@@ -2,6 +2,17 @@
 import json, os
 V = os.path.dirname(os.path.dirname(os.path.abspath(__file__)))
 CLAIMED = {
+ "C17": dict(
+   text="Proof: in the model of the constructors' validation (checks in source order) any ONE invalid family - positive constant escape rate, unknown escape norm, unknown "
+        "BH/WD IFMR method, analytic parameters failing the end-point validation, overlapping WD/BH progenitor ranges, unknown binning or kick method, f_BH list of wrong "
+        "length or with a negative entry, mis-sized or non-increasing IMF breaks - yields ValueError whatever the rest of the request is, and a request in none of the families "
+        "passes; the convergence flag (conjunction over ALL integrate calls, scipy's flag being sticky) is false as soon as any segment failed - incl. an intermediate one - "
+        "and true only if every segment succeeded. Requests of every family x random otherwise-valid configurations run against the real constructors; solver failures are "
+        "injected into the REAL scipy ode object at chosen calls and provoked natively with a 3-step budget.",
+   design="8/C17", technique="Coq proofs by case analysis over a validation model + exception-class correspondence + fault injection into the real solver object",
+   note="Trusted: Coq kernel; Reals axioms; harness (request generator, failure-injecting subclass); scipy's sticky success flag is exercised, not proved; over-ejection and "
+        "kicks-over-budget are proved in C07, the unreachable strict target in C08."),
+
  "C16": dict(
    text="Proof: in the store model of argument objects (handles to mutable option dictionaries, arbitrary sharing), for EVERY history of constructor calls the store "
         "afterwards equals the store before and every result equals the result of the same call on the original store; a dictionary that does not fix the metallicity "
